@@ -224,6 +224,13 @@ func c05Shapes(ai int, a c05Alias) []c05Shape {
 	out = append(out, c05Shape{fields: append(append([]c05Field(nil), base...), c05Field{ref.Name(a.name), "z"}), where: w0, alias: ai})
 	out = append(out, c05Shape{fields: append(append([]c05Field(nil), base...), c05Field{ref.Name(a.name), ""}), where: ref.Bl(true), alias: ai})
 	out = append(out, c05Shape{fields: []c05Field{{a.def, a.name}, {ref.Name(a.name), "y"}, {ref.Name("y"), "z"}}, where: ref.Bl(true), alias: ai})
+	// ... the same chain of names with the three fields in every order (a name
+	// used ahead of the field it names, which is itself a name used ahead)
+	chain := []c05Field{{a.def, a.name}, {ref.Name(a.name), "y"}, {ref.Name("y"), "z"}}
+	for _, pm := range [][3]int{{0, 2, 1}, {1, 0, 2}, {1, 2, 0}, {2, 0, 1}, {2, 1, 0}} {
+		out = append(out, c05Shape{fields: []c05Field{chain[pm[0]], chain[pm[1]], chain[pm[2]]}, where: ref.Bl(true), alias: ai})
+		out = append(out, c05Shape{fields: []c05Field{{ref.Key(), ""}, chain[pm[0]], chain[pm[1]], chain[pm[2]]}, where: w0, alias: ai})
+	}
 	// alias before key, value after
 	out = append(out, c05Shape{fields: []c05Field{{a.def, a.name}, {ref.Key(), ""}, {ref.Value(), ""}}, where: w0, alias: ai})
 	if a.ordable {
